@@ -132,6 +132,10 @@ class Cmp:
         if tuple(iv.shape) != tuple(rv.shape):
             return self.miss(where, "shape %r, written layout %r" % (tuple(iv.shape), tuple(rv.shape)))
         anysym = any(isinstance(e, RI.Sym) for row in rv.rows for e in row)
+        if not anysym and iv.dtype == object:
+            # (whatever the strictness about element kinds: an array of numbers is a numeric array - an object array of numbers
+            #  cannot even be serialised)
+            self.miss(where, "an array without parameters is held as an object array (declared %s)" % rv.kind)
         if not anysym and self.strict:
             want = {"int": "iu", "float": "f", "complex": "c"}[rv.kind]
             if iv.dtype.kind not in want:
